@@ -8,10 +8,12 @@ for d in $(ls seeded | grep -v "^benign-\|SUMMARY" | sort); do
   id="${d%%-*}"
   if [ -f seeded/$d/SUPERSEDED ]; then echo "$d: superseded (see meta.json)" >> seeded/SUMMARY.txt.new; continue; fi
   prev=$(grep -h " rc=1 " seeded/$d/detect_quick.txt 2>/dev/null | awk '{print $1}' | sort -u | tr '\n' ' ')
-  prev=$(echo $prev | tr ' ' '\n' | grep -v "^$id\$" | head -2 | tr '\n' ' ')
+  prev=$(echo $prev | tr ' ' '\n' | grep -v "^$id\$" | head -1 | tr '\n' ' ')
   checks="$id $prev"
   echo "===== $d ($checks)"
-  if [ -f seeded/$d/demo.rs ] || [ -f seeded/$d/demo.py ]; then tools/verify_seed.sh seeded/$d | tail -4 | cut -c1-120; fi
+  # the demonstration and the suite are re-run only for seeds last verified against an older /repo HEAD
+  if grep -qE "verified against /repo (322f1dd|cc466b2)" seeded/$d/verify.txt 2>/dev/null; then echo "(verified against current sources earlier: $(head -1 seeded/$d/verify.txt))";
+  elif [ -f seeded/$d/demo.rs ] || [ -f seeded/$d/demo.py ]; then tools/verify_seed.sh seeded/$d | tail -4 | cut -c1-120; fi
   tools/try_seed.sh seeded/$d quick $checks | cut -c1-200
   hit=$(grep " rc=1 " seeded/$d/detect_quick.txt | awk '{print $1}' | tr '\n' ' ')
   echo "$d: ${hit:-NOT DETECTED}" >> seeded/SUMMARY.txt.new
